@@ -27,6 +27,7 @@ import (
 	"time"
 
 	"seehuhn.de/go/sfnt"
+	"seehuhn.de/go/sfnt/cmap"
 	"seehuhn.de/go/sfnt/glyph"
 	"seehuhn.de/go/sfnt/opentype/gtab"
 	"seehuhn.de/go/sfnt/opentype/gtab/builder"
@@ -302,6 +303,39 @@ func checkExplain(fs *fontSpec, table string, ll gtab.LookupList) (text string, 
 	return
 }
 
+// checkNoCmap: Parse for a font without a usable character map (mode 0: no cmap
+// table at all, 1: an empty cmap table, 2: only a subtable GetBest does not
+// consider).  Whatever the text, Parse must end - with lookups or an error, not
+// a panic or a hang - and leave no goroutine behind.
+func checkNoCmap(mode int, text string) (obs, fail, sig string) {
+	f := (&fontSpec{names: []string{".notdef", "A", "B", "C"}, cm: map[rune]glyph.ID{}}).build()
+	switch mode {
+	case 0:
+		f.CMapTable = nil
+	case 1:
+		f.CMapTable = cmap.Table{}
+	default:
+		f.CMapTable = cmap.Table{cmap.Key{PlatformID: 2, EncodingID: 0}: cmap.Format4{65: 1}.Encode(0)}
+	}
+	for rep := 0; rep < 3; rep++ {
+		o := runParse(f, text)
+		switch {
+		case o.hung:
+			return "hang", "Parse hangs for a font without usable cmap", "parse-hang"
+		case o.panic != nil:
+			return "panic", fmt.Sprintf("Parse panics for a font without usable cmap: %v", o.panic), "parse-panic"
+		case o.leak != 0:
+			return "leak", fmt.Sprintf("%d goroutine(s) left running after Parse returned for a font without usable cmap", o.leak), "parse-goroutine-leak"
+		}
+		if o.err != nil {
+			obs = "err"
+		} else {
+			obs = "ok"
+		}
+	}
+	return obs, "", ""
+}
+
 func lexObs(text string) (string, string) {
 	base := runtime.NumGoroutine()
 	toks := builder.VerifC19Lex(text)
@@ -503,6 +537,20 @@ func RunCase(line string) (impl, fail, sig string, err error) {
 			return "", "", "", err
 		}
 		obs, _, fail, sig, _ := checkParse(fs, text, procsForReplay)
+		return obs, fail, sig, nil
+	case "!nocmap":
+		if len(items) != 3 {
+			return "", "", "", fmt.Errorf("!nocmap: 3 items expected")
+		}
+		mode, err := vlib.AsInt(items[1])
+		if err != nil {
+			return "", "", "", err
+		}
+		text, err := textFromSx(items[2])
+		if err != nil {
+			return "", "", "", err
+		}
+		obs, fail, sig := checkNoCmap(mode, text)
 		return obs, fail, sig, nil
 	case "!bytes":
 		if len(items) != 3 {
@@ -753,6 +801,27 @@ func Gen(run *vlib.Run, seed uint64, tier string) {
 			if fail != "" {
 				run.Fail(idx, line, fail, sig)
 			}
+		}
+	}
+
+	// 3a'. fonts without a usable cmap (oracle only)
+	r = root.Fork("nocmap")
+	for i := 0; i < vlib.Count(tier, 24, 300); i++ {
+		text := randomText(r, r.Range(0, 30))
+		switch i % 4 {
+		case 0:
+			text = "GSUB1: A -> B"
+		case 1:
+			text = "GSUB4: \"AB\" -> C\nGPOS1: A -> dx+10"
+		case 2:
+			text = ""
+		}
+		mode := i % 3
+		obs, fail, sig := checkNoCmap(mode, text)
+		line := "!" + vlib.Line(vlib.Atom("nocmap"), vlib.Int(mode), runesSx(text))
+		idx := run.Add(line, obs, true, "nocmap", "oracle-only")
+		if fail != "" {
+			run.Fail(idx, line, fail, sig)
 		}
 	}
 
